@@ -16,8 +16,7 @@ import core
 import flobuild as fb
 
 INDENT = [" ", " ", " ", "  ", "    ", "\t", "\t", " \t", "\x0b", "\x0c", "\x1c", "\x1f", "\xa0", " ", "　", "\x85"]
-PYSPACE = set("\t\n\x0b\x0c\r\x1c\x1d\x1e\x1f \x85\xa0          "
-              "      　")
+PYSPACE = {chr(i) for i in range(0x3001) if chr(i).isspace()}      # Py_UNICODE_ISSPACE
 
 
 def hx(s):
